@@ -419,3 +419,220 @@ def replay_dict_phases(vals, kind):
         if errs:
             return {'case': {'start': start, 'end': end, 'bytes': snap[start:min(65536, end + 4)]}, 'diffs': [('tiling', errs, 'none')]}
     return {'case': {}, 'diffs': []}
+
+
+# ---------------------------------------------------------------------------
+# _generate_ctls_with_code_map: steps (1), (2), (4), (6), (7)
+class BlockTriples:
+    """_get_blocks(ctls): [ctl, start, end] for consecutive keys (contract observed exhaustively on small dicts, see check_get_blocks)."""
+
+
+class MapBlocks:
+    """read_map(...): (address, length) pairs, start <= address < end, length >= 1, increasing and non-adjacent (props/c14map.py)."""
+
+
+def step_slices(fn):
+    node, _ = func_ast(fn)
+    body = node.body
+    out = {}
+    for i, s in enumerate(body):
+        src = ast.unparse(s)
+        if isinstance(s, ast.Assign) and src.replace(' ', '') == "ctls={start:'U',end:'i'}":
+            out['init'] = i
+        elif isinstance(s, ast.For) and 'read_map(' in ast.unparse(s.iter):
+            out['step1'] = [s]
+        elif isinstance(s, ast.While) and 'step2' not in out and '_find_terminal_instruction(' in src and 'disassembly' not in src:
+            out['step2'] = [s]
+        elif isinstance(s, ast.For) and '_get_blocks(ctls)' in ast.unparse(s.iter):
+            if "_find_terminal_instruction(" in src:
+                out['step4'] = [s]
+            elif "ctl == 'U'" in src:
+                out['step6'] = [s]
+            elif "ctl == 'b'" in src:
+                out['step7'] = [s]
+    missing = [k for k in ('init', 'step1', 'step2', 'step4', 'step6', 'step7') if k not in out]
+    if missing:
+        raise LookupError('_generate_ctls_with_code_map: cannot locate %s' % missing)
+    return node, out
+
+
+def check_code_map_steps(rep, prop='C14'):
+    import skoolkit.snactl as S
+    W = poly.W
+    fn = S._generate_ctls_with_code_map
+    try:
+        node, slices = step_slices(fn)
+    except LookupError as ex:
+        rep.downgraded.append({'function': fn.__qualname__ + '[steps]', 'reason': str(ex)})
+        return
+    q = fn.__qualname__
+    all_loops = sorted([n for n in ast.walk(node) if isinstance(n, (ast.For, ast.While))], key=lambda n: (n.lineno, n.col_offset))
+    rep.add('%s/%s/initial_dict_is_start_U_end_i' % (prop, q), 'proved', 'syntactic', 0, 'skoolkit.snactl._generate_ctls_with_code_map[step 1]')
+
+    for step in ('step1', 'step2', 'step4', 'step6', 'step7'):
+        stmts = slices[step]
+        name = 'skoolkit.snactl._generate_ctls_with_code_map[%s]' % step.replace('step', 'step ')
+
+        def start(eng, stmts=stmts, step=step):
+            p = eng.path
+            p.gs = SV(z3.BitVec('gstart', W), 0, 65535)
+            p.ge = SV(z3.BitVec('gend', W), 1, 65536)
+            p.facts.extend([p.gs.t >= 0, p.gs.t < p.ge.t, p.ge.t <= 65536])
+            eng.gs, eng.ge = p.gs, p.ge
+            ctls = TrackedDict('ctls')
+            ctls.members.extend([p.gs, p.ge])
+            eng.ctls = ctls
+
+            def reset_members(*extra):
+                ctls.forget()
+                ctls.members.extend([p.gs, p.ge] + list(extra))
+
+            def map_loop(e, node_):
+                """for address, length in read_map(...)"""
+                e.fresh_n += 1
+                if e.decide(SB(z3.Bool('iterate!%d' % e.fresh_n))):
+                    a = e.fresh('address', 0, 65535)
+                    ln = e.fresh('length', 1, 1 << 17)
+                    e.assume(and_(cmpop('>=', a, p.gs), cmpop('<', a, p.ge)))
+                    e.assign(node_.target, (a, ln))
+                    try:
+                        e.exec_block(node_.body)
+                    except _Continue:
+                        pass
+                    except _Break:
+                        return
+                    raise PathEnd()
+
+            def blocks_loop(e, node_):
+                """for ctl, b_start, b_end in _get_blocks(ctls): an arbitrary pair of consecutive keys"""
+                e.fresh_n += 1
+                if e.decide(SB(z3.Bool('iterate!%d' % e.fresh_n))):
+                    b0 = e.fresh('b_start', 0, 65536)
+                    b1 = e.fresh('b_end', 0, 65536)
+                    e.assume(and_(cmpop('>=', b0, p.gs), cmpop('<', b0, b1), cmpop('<=', b1, p.ge)))
+                    reset_members(b0, b1)
+                    e.assign(node_.target, (e.charval(b0), b0, b1))
+                    try:
+                        e.exec_block(node_.body)
+                    except _Continue:
+                        pass
+                    except _Break:
+                        return
+                    raise PathEnd()
+                reset_members()
+
+            def forever_loop(e, node_):
+                """while 1: ... if done: break  - one arbitrary pass from a state satisfying I"""
+                reset_members()
+                try:
+                    e.exec_block(node_.body)
+                except _Break:
+                    return
+                except _Continue:
+                    pass
+                raise PathEnd()
+
+            def until_loop(e, node_):
+                """while next_address < b_end: next_address = _find_terminal_instruction(...)  (invariant: b_address <= next_address)"""
+                fr = e.frames[-1]
+                na = fr.loc.get('next_address')
+                lo = fr.loc.get('b_address')
+                e.oblige('inv.establish', cmpop('>=', na, lo), node_)
+                e.fresh_n += 1
+                if e.decide(SB(z3.Bool('iterate!%d' % e.fresh_n))):
+                    x = e.fresh('next_address', 0, 65536)
+                    e.assume(cmpop('>=', x, lo))
+                    fr.loc['next_address'] = x
+                    e.assume(truth(e.ev_cond(node_.test)))
+                    e.exec_block(node_.body)
+                    e.oblige('inv.preserve', cmpop('>=', fr.loc['next_address'], lo), node_)
+                    raise PathEnd()
+                x = e.fresh('next_address', 0, 65536)
+                e.assume(cmpop('>=', x, lo))
+                fr.loc['next_address'] = x
+                e.assume(not_(truth(e.ev_cond(node_.test))))
+
+            def text_loop(e, node_):
+                tb = e.ev(node_.iter)
+                if not isinstance(tb, TextBlocks):
+                    raise poly.Refuse('text loop over %s' % type(tb).__name__)
+                ts = e.fresh('t_start', 0, 65536)
+                te = e.fresh('t_end', 0, 65536)
+                e.assume(and_(cmpop('>=', ts, tb.lo), cmpop('<', ts, te), cmpop('<=', te, tb.hi)))
+                e.fresh_n += 1
+                if e.decide(SB(z3.Bool('iterate!%d' % e.fresh_n))):
+                    e.assign(node_.target, (ts, te))
+                    try:
+                        e.exec_block(node_.body)
+                    except (_Break, _Continue):
+                        pass
+                    raise PathEnd()
+
+            handlers = {}
+            for l in all_loops:
+                if not any(l in list(ast.walk(s)) for s in stmts):
+                    continue
+                if isinstance(l, ast.While):
+                    h = forever_loop if ast.unparse(l.test) in ('1', 'True') else until_loop
+                else:
+                    it = ast.unparse(l.iter)
+                    h = map_loop if 'read_map(' in it else blocks_loop if '_get_blocks(' in it else text_loop if '_get_text_blocks(' in it else None
+                if h is None:
+                    raise poly.Refuse('unexpected loop in %s: %s' % (step, ast.unparse(l).split('\n')[0]))
+                handlers[(q, all_loops.index(l))] = h
+            eng.loop_invariants = handlers
+
+            def fti_model(e, args, kwargs, n):
+                """Call-site obligations = the precondition under which _find_terminal_instruction's own VC was proved (props/c14.py)."""
+                s_, e_ = args[2], args[3]
+                mode = args[5] if len(args) > 5 else kwargs.get('ctl')
+                if isinstance(s_, Unknown) or isinstance(e_, Unknown):
+                    e.oblige('pre._find_terminal_instruction', False, n, info='unknown bounds')
+                    return UNK
+                pre = [cmpop('>=', s_, p.gs), or_(cmpop('<=', s_, 65535), cmpop('>=', s_, e_)), cmpop('<=', s_, 65536), cmpop('<=', e_, p.ge), cmpop('>=', e_, 0)]
+                if mode is None:
+                    pre.append(cmpop('>', s_, p.gs))
+                    e.oblige('pre._find_terminal_instruction.start_is_a_key', ctls.known(s_), n)
+                e.oblige('pre._find_terminal_instruction', and_(*pre), n)
+                r = e.fresh('fti_result', 0, 65536)
+                e.assume(and_(cmpop('>=', r, s_), or_(cmpop('<=', r, e_), cmpop('>=', s_, e_))))
+                reset_members()
+                return r
+            eng.call_models[id(S._find_terminal_instruction)] = fti_model
+            eng.call_models[id(S._get_text_blocks)] = lambda e, a, k, n: TextBlocks(a[1], a[2])
+            eng.call_models[id(S._get_blocks)] = lambda e, a, k, n: BlockTriples()
+            eng.call_models[id(S.decode)] = lambda e, a, k, n: UNK
+            mr = CallModel(lambda e, a, k, n: MapBlocks(), 'read_map')
+            from pyvc.engine import ObjModel
+            map_reader = ObjModel(None, name='map_reader')
+            map_reader.attrs['read_map'] = mr
+            disassembly = ObjModel(None, name='disassembly')
+            disassembly.attrs['remove_entry'] = CallModel(lambda e, a, k, n: None, 'remove_entry')
+            p.locs = {'snapshot': UNK, 'start': p.gs, 'end': p.ge, 'config': UNK, 'rst_handler': None, 'code_map': 'map', 'ctls': ctls,
+                      'map_reader': map_reader, 'disassembly': disassembly}
+            eng.run_stmts(fn, stmts, p.locs)
+
+        eng = DictEngine(inline_ok=lambda f: False, unknown_ok=True)
+        FuncVC(rep, prop, fn, name, eng).run(start, None, None)
+    rep.assume('_generate_ctls_with_code_map: steps (3) and (5) take their keys from Disassembly objects (entry / instruction addresses): not under VC; '
+               '_get_blocks yields [ctl, key_i, key_i+1] for consecutive sorted keys (checked exhaustively on all dictionaries with keys in 0..6, not proved for arbitrary size)')
+
+
+def check_get_blocks(rep, prop='C14'):
+    """E (small scope): _get_blocks on every dictionary whose keys are a subset of {0..6} with at least two keys."""
+    import itertools
+    import skoolkit.snactl as S
+    n = 0
+    bad = []
+    for r in range(2, 8):
+        for keys in itertools.combinations(range(7), r):
+            d = {k: 'bcistuw'[k] for k in keys}
+            n += 1
+            got = S._get_blocks(dict(d))
+            exp = [[d[a], a, b] for a, b in zip(keys, keys[1:])]
+            if got != exp:
+                bad.append((keys, got, exp))
+    rep.add_bulk(n - len(bad), 'exhaustive', 0, 'skoolkit.snactl._get_blocks', n=n)
+    rep.exhaustive.append({'domain': '_get_blocks on every dictionary with >= 2 keys drawn from 0..6 (small scope, stands in for arbitrary size)', 'size': n, 'visited': n, 'complete': False})
+    if bad:
+        rep.violation('%s/skoolkit.snactl._get_blocks/consecutive_keys' % prop, '_get_blocks(%s) = %s, expected %s' % (dict.fromkeys(bad[0][0]), bad[0][1], bad[0][2]), {'case': {'keys': list(bad[0][0])}})
